@@ -23,7 +23,9 @@ EXTENDS Commands
 DbIds == 0..15
 
 NewSess == [db |-> 0, proto |-> 2, name |-> <<>>, multi |-> "off", queue |-> <<>>,
-            watch |-> {}, cas |-> FALSE, o |-> 0, wid |-> <<>>]
+            watch |-> {}, cas |-> FALSE, o |-> 0, wid |-> <<>>,
+            blk |-> [on |-> FALSE], gate |-> "none", parked |-> FALSE, closed |-> FALSE]
+BNames == {"BLPOP", "BRPOP", "BLMOVE", "BRPOPLPUSH", "BLMPOP"}
 
 EmptyDbs == [i \in DbIds |-> EmptyDb]
 InitServer(conns) == [dbs |-> EmptyDbs, now |-> 1000000, conn |-> [c \in conns |-> NewSess], orph |-> <<>>,
@@ -179,6 +181,9 @@ Run(S, c, cmd) ==
           [] nm = "ECHO" -> Echo(S, a)
           [] nm = "HELLO" -> Hello(S, c, a)
           [] nm = "CLIENT" -> Client(S, c, a)
+          \* a blocking command executed by EXEC (or issued when data is available) is its non-blocking attempt
+          [] nm \in BNames -> LET res == TryB(Live(DbOf(S, c), S.now), nm, a)
+                              IN  SRes(WithDb(S, c, KeepExpired(DbOf(S, c), S.now, res.db)), res.r, res.dv, res.rel, res.tol)
           [] nm = "UNWATCH" -> IF Len(a) # 0 THEN SOk(S, EArg)
                                ELSE SOk([S EXCEPT !.conn[c].watch = {}, !.conn[c].cas = FALSE, !.conn[c].wid = <<>>], ROk)
           \* an unknown command name is refused; the emulator quotes the name and the arguments in the error
